@@ -106,3 +106,126 @@ End Chunks.
 
 Print Assumptions ppar_final.
 Print Assumptions chunks_exec.
+
+(* ---- the chunks of a parallel request, under the contracts, are E block by block ---- *)
+Section ParBlocks.
+  Variable E : list byte -> list byte.
+  Variables (bs psize fvec fblk : nat).
+  Hypothesis Hbs : 0 < bs.
+  Hypothesis Hps : 0 < psize.
+  Hypothesis Hpm : psize mod bs = 0.
+  Hypothesis Hne : fvec <> fblk.
+  Definition Gpar (f : nat) (x : list byte) : list byte :=
+    if Nat.eqb f fvec then concat (map E (blocks bs x)) else E x.
+  Notation cout := (chunk_out Gpar).
+
+  Lemma chunk_out_app : forall l1 l2 data,
+    cout (l1 ++ l2) data = cout l1 data ++ cout l2 (skipn (total l1) data).
+  Proof.
+    induction l1 as [|[n f] l1 IH]; intros l2 data; [reflexivity|].
+    cbn [app chunk_out total]. rewrite IH, <- app_assoc, skipn_add. reflexivity.
+  Qed.
+  Lemma total_repeat : forall n f k, total (repeat (n, f) k) = k * n.
+  Proof. intros n f k. induction k as [|k IH]; [reflexivity|]. cbn [repeat total]. rewrite IH. reflexivity. Qed.
+
+  Lemma chunk_out_vec : forall k data, k * psize <= length data ->
+    cout (repeat (psize, fvec) k) data = concat (map E (blocks bs (firstn (k * psize) data))).
+  Proof.
+    destruct (mod0_mult _ _ Hbs Hpm) as (p & Hp).
+    induction k as [|k IH]; intros data Hk; [reflexivity|].
+    cbn [repeat chunk_out]. rewrite IH by (rewrite skipn_length; lia).
+    unfold Gpar. rewrite Nat.eqb_refl.
+    replace (S k * psize) with (psize + k * psize) by lia.
+    assert (Hsplit : firstn (psize + k * psize) data = firstn psize data ++ firstn (k * psize) (skipn psize data)).
+    { rewrite <- (firstn_skipn psize data) at 1. rewrite firstn_app, firstn_length, Nat.min_l by lia.
+      rewrite firstn_all2 by (rewrite firstn_length; lia). f_equal. f_equal. lia. }
+    rewrite Hsplit, (blocks_app bs Hbs p) by (rewrite firstn_length, Nat.min_l by lia; exact Hp).
+    rewrite map_app, concat_app. reflexivity.
+  Qed.
+
+  Lemma chunk_out_blk : forall k data, length data = k * bs ->
+    cout (repeat (bs, fblk) k) data = concat (map E (blocks bs data)).
+  Proof.
+    induction k as [|k IH]; intros data Hk.
+    - destruct data; [reflexivity | cbn in Hk; lia].
+    - cbn [repeat chunk_out]. rewrite IH by (rewrite skipn_length; lia).
+      unfold Gpar. destruct (Nat.eqb fblk fvec) eqn:Ef; [apply Nat.eqb_eq in Ef; congruence|].
+      rewrite (blocks_step bs data Hbs) by (intros ->; cbn in Hk; lia). reflexivity.
+  Qed.
+
+  Theorem par_chunk_out_blocks : forall has_vt (inp : list byte), length inp mod bs = 0 ->
+    cout (par_chunks has_vt psize bs fvec fblk (length inp)) inp = concat (map E (blocks bs inp)).
+  Proof.
+    intros has_vt inp Hm. unfold par_chunks. cbv zeta.
+    destruct (mod0_mult _ _ Hbs Hpm) as (p & Hp). destruct (mod0_mult _ _ Hbs Hm) as (k & Hk).
+    set (nv := if has_vt then length inp / psize else 0).
+    assert (Hnv : nv * psize <= length inp).
+    { unfold nv. destruct has_vt; [|lia]. rewrite Nat.mul_comm. apply Nat.mul_div_le. lia. }
+    rewrite chunk_out_app, total_repeat, chunk_out_vec by exact Hnv.
+    assert (Hrest : length (skipn (nv * psize) inp) = ((length inp - nv * psize) / bs) * bs).
+    { rewrite skipn_length. rewrite Hk, Hp. replace (k * bs - nv * (p * bs)) with ((k - nv * p) * bs) by nia.
+      rewrite Nat.div_mul by lia. reflexivity. }
+    rewrite chunk_out_blk by exact Hrest.
+    rewrite <- concat_app, <- map_app.
+    rewrite <- (blocks_app bs Hbs (nv * p)) by (rewrite firstn_length, Nat.min_l by lia; rewrite Hp; lia).
+    rewrite firstn_skipn. reflexivity.
+  Qed.
+End ParBlocks.
+
+Lemma total_app : forall l1 l2, total (l1 ++ l2) = total l1 + total l2.
+Proof. induction l1 as [|[n f] l1 IH]; intros l2; [reflexivity|]. cbn [app total]. rewrite IH. lia. Qed.
+Lemma total_repeat' : forall n f k, total (repeat (n, f) k) = k * n.
+Proof. intros n f k. induction k as [|k IH]; [reflexivity|]. cbn [repeat total]. rewrite IH. reflexivity. Qed.
+Lemma total_app_repeat : forall a f x b g y, total (repeat (a, f) x ++ repeat (b, g) y) = x * a + y * b.
+Proof. intros. rewrite total_app, !total_repeat'. reflexivity. Qed.
+
+(* ================================================================================================== *)
+(* the final statement: a checked parallel-ECB function computes E block by block                        *)
+(* ================================================================================================== *)
+Theorem ppar_model : forall fields code fuel pl sh pl' sh' c t kn has_vt psize bs fvec fblk size (rsz : list nat),
+  fields_okb fields = true ->
+  flat fields fuel pl sh code = Some (pl', sh', c, t) ->
+  check_proc (size :: size :: rsz) c (pspec kn poly has_vt psize bs fvec fblk size) = true ->
+  forall (cB : nat -> list bool -> list bool) (E : list byte -> list byte) (out inp : list byte)
+         (EO KS : list (list bool)) (rest : mem bool),
+  0 < bs -> 0 < psize -> psize mod bs = 0 -> size mod bs = 0 -> fvec <> fblk -> kn <= length KS -> bytes8 KS ->
+  length out = size -> length inp = size ->
+  (forall blk, length blk = bs -> length (E blk) = bs) ->
+  (forall blk, length blk = bs -> cB fblk (concat (bitsB blk) ++ concat (firstn kn KS)) = concat (bitsB (E blk))) ->
+  (forall grp, length grp = psize ->
+     cB fvec (concat (bitsB grp) ++ concat (firstn kn KS)) = concat (bitsB (concat (map E (blocks bs grp))))) ->
+  let m0 : mem bool := bitsB out :: bitsB inp :: EO :: KS :: rest in
+  shaped (size :: size :: rsz) m0 -> SIRProofs.Inv fields sh m0 ->
+  exists st', interp fields cB fuel pl (m0, []) code = Some (pl', st', t)
+    /\ fst st' = bitsB (concat (map E (blocks bs inp))) :: bitsB inp :: EO :: KS :: rest.
+Proof.
+  intros fields code fuel pl sh pl' sh' c t kn has_vt psize bs fvec fblk size rsz Hf Hfl Hk cB E out inp EO KS rest
+         Hbs Hps Hpm Hsm Hne Hkn HKS8 Ho Hi HE Hcblk Hcvec m0 Hm HI.
+  destruct (ppar_final fields code fuel pl sh pl' sh' c t _ kn has_vt psize bs fvec fblk size Hf Hfl Hk cB m0 Hm HI) as [Hint Hsem].
+  exists (execB cB c (m0, [])). split; [exact Hint|]. rewrite Hsem. unfold par_calls, m0.
+  assert (HElen' : forall k x, length x = k * bs -> length (concat (map E (blocks bs x))) = length x).
+  { induction k as [|k IHk]; intros x Hk'.
+    - destruct x; [reflexivity | cbn in Hk'; lia].
+    - rewrite (blocks_step bs x Hbs) by (intros ->; cbn in Hk'; lia). cbn [map concat]. rewrite app_length.
+      rewrite HE by (rewrite firstn_length; lia).
+      rewrite IHk by (rewrite skipn_length; lia). rewrite skipn_length. lia. }
+  assert (HElen : forall x, length x mod bs = 0 -> length (concat (map E (blocks bs x))) = length x).
+  { intros x Hx. destruct (mod0_mult _ _ Hbs Hx) as (k & Hk'). apply (HElen' k x Hk'). }
+  rewrite (chunks_exec kn cB (Gpar E bs fvec) EO KS rest inp HKS8 Hkn).
+  - cbn [fst skipn]. f_equal. rewrite <- Hi at 1.
+    rewrite (par_chunk_out_blocks E bs psize fvec fblk Hbs Hps Hpm Hne has_vt inp) by (rewrite Hi; exact Hsm).
+    unfold splice. cbn [firstn app plus]. rewrite skipn_all2; [apply app_nil_r|].
+    rewrite !map_length, HElen by (rewrite Hi; exact Hsm). unfold byte in *. lia.
+  - intros n fno Hin x Hx. unfold par_chunks in Hin. apply in_app_or in Hin. destruct Hin as [Hin|Hin]; apply repeat_spec in Hin;
+      injection Hin as Hn Hf'; rewrite Hn in Hx |- *; rewrite Hf'; unfold Gpar.
+    + rewrite Nat.eqb_refl. split; [apply Hcvec; exact Hx|]. rewrite HElen; [exact Hx | rewrite Hx; exact Hpm].
+    + destruct (Nat.eqb fblk fvec) eqn:Ef; [apply Nat.eqb_eq in Ef; congruence|]. split; [apply Hcblk; exact Hx | apply HE; exact Hx].
+  - assert (Ht : total (par_chunks has_vt psize bs fvec fblk size) <= size).
+    { unfold par_chunks. cbv zeta. set (nv := if has_vt then size / psize else 0).
+      assert (nv * psize <= size) by (unfold nv; destruct has_vt; [rewrite Nat.mul_comm; apply Nat.mul_div_le; lia | lia]).
+      clear - H Hbs. rewrite total_app_repeat. pose proof (Nat.mul_div_le (size - nv * psize) bs ltac:(lia)). lia. }
+    unfold byte in *. lia.
+  - rewrite map_length. unfold byte in *. lia.
+Qed.
+Print Assumptions par_chunk_out_blocks.
+Print Assumptions ppar_model.
